@@ -2469,6 +2469,12 @@ class ACCEnterDataTrans(Transformation):
 
         # Add the directive at the position determined above, i.e. just before
         # the first statement containing an OpenACC compute construct.
+        # An 'acc routine' directive belongs to the specification part and
+        # must stay ahead of any executable directive.
+        while (posn < len(sched.children) and
+               isinstance(sched.children[posn], ACCRoutineDirective)):
+            posn += 1
+
         data_dir = AccEnterDataDir(parent=sched, children=[])
         sched.addchild(data_dir, index=posn)
 
